@@ -1,10 +1,12 @@
 /-
 C17 line-protocol driver.  One case = one whole Caddyfile (bytes, hex):
-  rt <hex>     answer: `F:<hex of Format(x)> T:<tokens of x> U:<tokens of Format(x)> I:<0|1>`
+  rt <hex>     answer: `F:<hex of Format(x)> T:<tokens of x> U:<tokens of Format(x)> I:<0|1> W:<0|1>`
                I = 1 iff Format(Format(x)) = Format(x)
+               W = 1 iff x lies in the fragment `inW` on which preservation and idempotence are
+                   PROVED (the harness recomputes this predicate independently)
 tokens = `err:<class>` | `-` (no token) | `line.q.texthex,…` with q ∈ n (unquoted) d (") b (`) h (heredoc).
 -/
-import CaddyModel.C17.Model
+import CaddyModel.C17.Fragment
 
 namespace CaddyModel.C17
 
@@ -31,7 +33,8 @@ def roundTrip (b : Bytes) : String :=
   "F:" ++ Hex.encode (formatBytes b) ++
   " T:" ++ showToks (tokenize (decodeUtf8 b)) ++
   " U:" ++ showToks (tokenize (decodeUtf8 (formatBytes b))) ++
-  " I:" ++ (if formatBytes (formatBytes b) = formatBytes b then "1" else "0")
+  " I:" ++ (if formatBytes (formatBytes b) = formatBytes b then "1" else "0") ++
+  " W:" ++ (if inW (decodeUtf8 b) then "1" else "0")
 
 def handle : List String → String
   | ["rt", inp] =>
